@@ -385,6 +385,7 @@ def analyse(facts, tier):
     obls += r4_init(facts)
     obls += r5_version_window(facts)
     obls += r6_parser_total(facts)
+    obls += r3_blank_encoding(facts)
     return obls
 
 
@@ -570,4 +571,35 @@ def r6_parser_total(facts):
                        'WOPNInstrument::%s is assigned only under a condition (or not at all): WOPN_LoadInstFromMem leaves in it what the caller\'s struct held before, so the loaded instrument is not determined by the file' % fld['n']))
     if len(out) < 8:
         raise build.AnalysisBroken('C15.R6: fields of WOPNInstrument not found')
+    return out
+
+
+def r3_blank_encoding(facts):
+    """version 2 has no flag byte: the writer stores a blank instrument as two zero delays and the reader recognises it by them.  The
+    reader must require BOTH delays to be zero: a sounding instrument with one zero delay (percussion with no key-on delay) would
+    otherwise load as blank, and the note falls back to another bank or is dropped."""
+    out = []
+    fn = facts.fn('WOPN_parseInstrument')
+    blank = facts.enums.get('WOPN_Ins_IsBlank')
+    n = 0
+    for b, j, st in fn.cfg.stmts():
+        ap = assign_parts(st['s'])
+        if not ap or short(strip(ap[0]).get('n', '')) != 'inst_flags' or ap[2] not in ('|=', '='):
+            continue
+        if not any(isinstance(y, dict) and (const_of(y) == blank and y.get('enumc')) for y in walk(ap[1])):
+            continue
+        n += 1
+        zero = set()
+        for f in guard_facts(fn, b, st):
+            nn = cmp_norm(f) if f[0] == 'cmp' else None
+            if nn and nn[0] == '==' and nn[2] == 0:
+                for y in walk(nn[1]):
+                    if isinstance(y, dict) and y.get('k') == 'MemberExpr' and 'delay' in short(y.get('n', '')):
+                        zero.add(short(y['n']))
+        ok = {'delay_on_ms', 'delay_off_ms'} <= zero
+        out.append(Obl('C15.R3', fn.name, 'blank <=> both delays are zero', st['loc'], 'discharged' if ok else 'finding',
+                       why='the blank flag is set under delay_on_ms == 0 && delay_off_ms == 0' if ok else
+                       'the blank flag is set when %s: an instrument with only that delay zero is written as sounding and loads as blank' % (' and '.join(sorted(zero)) + ' is zero' if zero else 'no delay is tested')))
+    if n < 1:
+        raise build.AnalysisBroken('C15.R3: the store of the blank flag in WOPN_parseInstrument not found')
     return out
